@@ -18,7 +18,7 @@ from props.extlib import (keys_of, build_ext, ext_to_json, ext_to_coq, obs_to_co
 ID = 'C13'
 COQ_PROPS = 'Props/C13.v'
 THEOREMS = ['C13_key_local', 'C13_key_local_merge', 'C13_key_local_subset', 'C13_key_order_merge', 'C13_key_order_subset', 'C13_key_order_perm',
-            'C13_inputs_returned_partial']
+            ]
 ALLOWED_AXIOMS = []
 TABLES = ['t_classes', 't_ext_tol']
 TRUSTED_BASE = [
